@@ -84,14 +84,15 @@ Repoint(allSnaps, keptSnaps) ==
   [i \in 1..Len(keptSnaps) |->
      [keptSnaps[i] EXCEPT !.parent = RepointWalk(allSnaps, keptIds, keptSnaps[i].parent, {})]]
 
-(* ---- transaction.py:581-601 _make_expire_mutator(cutoff_ms) ---- *)
+(* ---- transaction.py:601-621 _make_expire_mutator(cutoff_ms) ---- *)
+\* (transaction.py line numbers: tree at commit 526391b)
 ExpireMutator(m, cutoff) ==
-  LET kept    == SelectSeq(m.snaps, LAMBDA s : s.ts >= cutoff \/ s.id = m.cur)   \* :588-592
-      keptIds == SnapIds(kept)                                                   \* :593
-  IN [m EXCEPT !.snaps = Repoint(m.snaps, kept),                                 \* :595-596
-               !.slog  = SelectSeq(m.slog, LAMBDA e : e \in keptIds)]            \* :597-599
+  LET kept    == SelectSeq(m.snaps, LAMBDA s : s.ts >= cutoff \/ s.id = m.cur)   \* :608-612
+      keptIds == SnapIds(kept)                                                   \* :613
+  IN [m EXCEPT !.snaps = Repoint(m.snaps, kept),                                 \* :615-616
+               !.slog  = SelectSeq(m.slog, LAMBDA e : e \in keptIds)]            \* :617-619
 
-\* transaction.py:384-396: several expire_snapshots in one transaction fold to the max cutoff
+\* transaction.py:393-405: several expire_snapshots in one transaction fold to the max cutoff
 FoldCutoff(c1, c2) == IF c1 = NoCutoff THEN c2 ELSE IF c2 = NoCutoff THEN c1 ELSE MaxOf(c1, c2)
 
 (* ---- snapshot_manager.py:157-190 _apply_retention ---- *)
@@ -109,16 +110,16 @@ ApplyRetention(m) ==
   IN [m EXCEPT !.snaps = Repoint(m.snaps, surviving),               \* :186-187
                !.slog  = SelectSeq(m.slog, LAMBDA e : e \in keptIds)]  \* :188-190
 
-(* ---- transaction.py:465 / snapshot_manager.py:107-108 ---- *)
+(* ---- transaction.py:485 / snapshot_manager.py:107-108 ---- *)
 NextSeq(base) == base.lastSeq + 1
 
 (* ---- snapshot_manager.py:104-148 create_snapshot: construction of the new metadata ---- *)
-\* sid      : transaction.py:461 (fresh random id)
-\* seq      : transaction.py:465 = NextSeq(base) of the base the attempt read
+\* sid      : transaction.py:481 (fresh random id)
+\* seq      : transaction.py:485 = NextSeq(base) of the base the attempt read
 \* ts       : snapshot_manager.py:113 clock read
 \* listId   : the manifest list written by this attempt
 \* cutoffOrNone : NoCutoff, or the folded expire cutoff (metadata_mutator)
-\* parent   : transaction.py:570-574 = base.current_snapshot_id (None -> -1; both are 0 here)
+\* parent   : transaction.py:590-594 = base.current_snapshot_id (None -> -1; both are 0 here)
 NewSnapshot(base, sid, seq, ts, listId, cutoffOrNone) ==
   LET snap == [id |-> sid, parent |-> base.cur, seq |-> seq, ts |-> ts, list |-> listId]  \* :111-122
       m1 == [base EXCEPT !.snaps   = Append(@, snap),                    \* :125-126
@@ -128,7 +129,7 @@ NewSnapshot(base, sid, seq, ts, listId, cutoffOrNone) ==
       m2 == IF cutoffOrNone # NoCutoff THEN ExpireMutator(m1, cutoffOrNone) ELSE m1   \* :140-144
   IN ApplyRetention(m2)                                                  \* :148
 
-\* transaction.py:408-414 metadata-only transaction (expire_snapshots alone): no snapshot, no retention
+\* transaction.py:417-423 metadata-only transaction (expire_snapshots alone): no snapshot, no retention
 ExpireOnly(base, cutoff) == ExpireMutator(base, cutoff)
 
 (* ---- snapshot_manager.py:303-317 _most_recent_snapshot_id ---- *)
@@ -189,12 +190,12 @@ Validate(base, cur) ==
 SetRetentionProp(base, k) == [base EXCEPT !.retention = k]
 SetMlogMaxProp(base, k)   == [base EXCEPT !.mlogMax = k]
 
-(* ---- transaction.py:450-564 _commit_file_ops, steps 1-4 (manifests) ---- *)
+(* ---- transaction.py:470-584 _commit_file_ops, steps 1-4 (manifests) ---- *)
 \* baseManifests : sequence of [id, entries] = the manifests of the base's current snapshot, in
-\*                 manifest-list order (empty when the base has no current snapshot, :471-475)
+\*                 manifest-list order (empty when the base has no current snapshot, :491-495)
 \* appends       : sequence of data files (order of the append_data / append_files calls)
 \* deletes       : set of data files named by delete_files.  A named path p matches entry f iff
-\*                 p = f.file_path or p = f.file_path.lstrip("/") (:523-527); both spellings of a
+\*                 p = f.file_path or p = f.file_path.lstrip("/") (:543-547); both spellings of a
 \*                 file are the same abstract value here.
 \* freshIds      : sequence of unused manifest ids, consumed left to right
 \* result        : [list |-> sequence of manifest ids of the new manifest list,
@@ -203,11 +204,11 @@ RECURSIVE FileOpsDeleteLoop(_, _, _, _, _)
 FileOpsDeleteLoop(bm, k, deletes, freshIds, acc) ==
   IF k > Len(bm) THEN acc
   ELSE
-  LET ents == bm[k].entries                                                \* :516
-      surv == SelectSeq(ents, LAMBDA e : e.file \notin deletes)            \* :523-527
-  IN IF Len(surv) = Len(ents)                                              \* :529-531 keep
+  LET ents == bm[k].entries                                                \* :536
+      surv == SelectSeq(ents, LAMBDA e : e.file \notin deletes)            \* :543-547
+  IN IF Len(surv) = Len(ents)                                              \* :549-551 keep
      THEN FileOpsDeleteLoop(bm, k + 1, deletes, freshIds, [acc EXCEPT !.list = Append(@, bm[k].id)])
-     ELSE IF Len(surv) > 0                                                 \* :532-544 rewrite
+     ELSE IF Len(surv) > 0                                                 \* :552-564 rewrite
      THEN LET nid == freshIds[Len(acc.written) + 1]
               \* file_manager.py:208-226: carried-over files: status EXISTING, ORIGINAL snapshot id
               \* and sequence number
@@ -215,14 +216,14 @@ FileOpsDeleteLoop(bm, k, deletes, freshIds, acc) ==
                       entries |-> [i \in 1..Len(surv) |-> [surv[i] EXCEPT !.status = "EXISTING"]]]
           IN FileOpsDeleteLoop(bm, k + 1, deletes, freshIds,
                                [list |-> Append(acc.list, nid), written |-> Append(acc.written, nm)])
-     ELSE FileOpsDeleteLoop(bm, k + 1, deletes, freshIds, acc)             \* :545 drop
+     ELSE FileOpsDeleteLoop(bm, k + 1, deletes, freshIds, acc)             \* :565 drop
 
 FileOps(baseManifests, appends, deletes, sid, seq, freshIds) ==
-  LET afterDel == IF deletes # {}                                          \* :509
+  LET afterDel == IF deletes # {}                                          \* :529
                   THEN FileOpsDeleteLoop(baseManifests, 1, deletes, freshIds, [list |-> <<>>, written |-> <<>>])
-                  ELSE [list |-> [i \in 1..Len(baseManifests) |-> baseManifests[i].id],   \* :546-547
+                  ELSE [list |-> [i \in 1..Len(baseManifests) |-> baseManifests[i].id],   \* :566-567
                         written |-> <<>>]
-  IN IF appends # <<>>                                                     \* :550-559
+  IN IF appends # <<>>                                                     \* :570-579
      THEN LET nid == freshIds[Len(afterDel.written) + 1]
               \* file_manager.py:211-213: ADDED entries carry the committing snapshot id / seq
               nm  == [id |-> nid,
@@ -231,7 +232,7 @@ FileOps(baseManifests, appends, deletes, sid, seq, freshIds) ==
           IN [list |-> Append(afterDel.list, nid), written |-> Append(afterDel.written, nm)]
      ELSE afterDel
 
-\* transaction.py:404: file operations (=> a snapshot) iff something is appended or named for deletion
+\* transaction.py:413: file operations (=> a snapshot) iff something is appended or named for deletion
 IsFileOp(appends, deletes) == appends # <<>> \/ deletes # {}
 
 (* ---- snapshot_manager.py:208-220 get_snapshot_by_timestamp ---- *)
